@@ -1318,8 +1318,48 @@ def ob_pk2_operator(dim, nPe, canary=False):
     return Verdict(DISCHARGED, backend=BACKEND, sub=nd * nd + nd)
 
 
+@_guard
+def ob_active_stress_operator(dim, nPe):
+    """NonLinear.ActiveStressTensor: R == t sum_p wJ B^T Sigma_act, K == t sum_p wJ I (x) dN^T Smat dN (no material part), interleaved dofs; (None, None) when the law carries no active stress"""
+    ns = {2: 3, 3: 6}[dim]
+    sp = gen.Space(dict(wJ=(NE, NPG), dN=(NE, NPG, dim, nPe), De=(NE, NPG, ns, dim * dim), S=(NE, NPG, ns)), scalars=("t",))
+    g, NPs, Fe = env(sp, "EasyFEA.FEM.Operators.NonLinear")
+    g["np"] = type("NPn", (type(NPs),), dict(arange=staticmethod(np.arange), all=staticmethod(np.all)))(sp)
+    gu, _, _ = env(sp, "EasyFEA.Models._utils")
+    gu["FeArray"], gu["np"] = g["FeArray"], g["np"]
+    r2 = sp.ctx.sqrt_rational(F(2))
+    pvm = extract.compile_fn(extract.get(MUP, "Project_vector_to_matrix"), gu)
+    g["Project_vector_to_matrix"] = lambda v, coef=None: pvm(v, r2 if coef is None else coef)
+    fns = module_fns(NLP, g, ["einsum", "__block_grad_B", "__geometric_tangent", "__reorder", "__reorder_dofs", "ActiveStressTensor"])
+    grp = sx.Mock("groupElem", Ne=NE, dim=dim, nPe=nPe, Get_dN_e_pg=lambda mt: sp.fe("dN"), Get_weightedJacobian_e_pg=lambda mt: sp.fe("wJ"))
+    state = sx.Mock("state", groupElem=grp, matrixType="rigi", Compute_De=lambda: sp.fe("De"))
+    off = sx.Mock("material", thickness=sp.sym("t"), active_stress=0.0)
+    if fns["ActiveStressTensor"](off, state) != (None, None):
+        raise Refuted("a law without active stress contributes something", signature="active:none")
+    mat = sx.Mock("material", thickness=sp.sym("t"), active_stress=1.5, Compute_active_stress=lambda st: sp.fe("S"))
+    K, R = fns["ActiveStressTensor"](mat, state)
+    wJ, dN, De, S = (sp.arr(k) for k in ("wJ", "dN", "De", "S"))
+    t = sp.sym("t") if dim == 2 else 1
+    nd = nPe * dim
+    Bt = gen.einsum("epskj,epjn->epsnk", De.reshape(NE, NPG, ns, dim, dim), dN).reshape(NE, NPG, ns, nd)
+    Smat = sp.full((NE, NPG, dim, dim), 0)
+    for d in range(dim):
+        Smat[:, :, d, d] = S[:, :, d]
+    for i, j, k in {2: [(0, 1, 2)], 3: [(1, 2, 3), (0, 2, 4), (0, 1, 5)]}[dim]:
+        Smat[:, :, i, j] = S[:, :, k] / r2
+        Smat[:, :, j, i] = S[:, :, k] / r2
+    geo = gen.einsum("ep,epan,epac,epcm->enm", wJ, dN, Smat, dN)
+    wantK = gen.einsum("enm,kl->enkml", geo, sp.lift(np.eye(dim, dtype=int))).reshape(NE, nd, nd) * t
+    check(R, gen.einsum("ep,eps,epsa->ea", wJ, S, Bt) * t, f"residual of the active-stress operator (dim {dim}, nPe {nPe})", f"active:R:{dim}:{nPe}")
+    check(K, wantK, f"geometric tangent of the active-stress operator (dim {dim}, nPe {nPe})", f"active:K:{dim}:{nPe}")
+    return Verdict(DISCHARGED, backend=BACKEND, sub=nd * nd + nd + 1)
+
+
 def hyper_obligations(prop, tier):
     obs = []
+    for dim, nPe in ((2, 3), (3, 4)) + (((2, 4), (3, 8)) if tier == "thorough" else ()):
+        obs.append(Ob(f"{prop}.gp.active.{dim}d.n{nPe}", ob_active_stress_operator, (dim, nPe), "P", (f_(NLP, "ActiveStressTensor"), f_(NLP, "__geometric_tangent"), f_(NLP, "__block_grad_B")),
+                      clause="R == t sum_p wJ B^T Sigma_act and K == t sum_p wJ I (x) dN^T Smat dN for an arbitrary active stress at the generic (e, p); nothing when the law has none; all Ne, nPg", timeout=900))
     for dim, nPe in ((2, 3), (2, 4), (3, 4)) + (((2, 6), (3, 8), (3, 6)) if tier == "thorough" else ()):
         obs.append(Ob(f"{prop}.gp.pk2.{dim}d.n{nPe}", ob_pk2_operator, (dim, nPe), "P",
                       tuple(f_(NLP, q) for q in ("SecondPiolaKirchhoffStressTensor", "__second_piola_block", "__geometric_tangent", "__block_grad_B", "__reorder_dofs")) + (f_(MUP, "Project_vector_to_matrix"),),
